@@ -12,6 +12,8 @@ expect[C07-2]=2; expect[C07-6]=2
 # round 4
 expect[C06-7]=2; expect[C11-7]=2; expect[C20-5]=2      # restructured / unknown callee: undecided
 expect[C07-7]=0; expect[C12-3]=0   # rejected under another property's check only (C03/C05: undecided there) / out of reach (C12-3)
+# round 5
+expect[C05-8]=2; expect[C10-8]=2; expect[C16-9]=2      # type of the vertex set changed / series and norm loops rewritten: overlays lose their anchors -> undecided
 bad=0
 for d in seeded/C*-*/; do
   n=$(basename $d); id=${n%-*}
